@@ -226,4 +226,70 @@ theorem feasible_ge_optimum (ε : Rat) (hε : 0 ≤ ε) (n : Nat) (us : List Uop
   rw [(optimum_eq_lowerBound n us hw opt).mp hopt]
   exact feasible_ge_lowerBound ε n us v (WFUops.portsBounded hw) h hε
 
+/-- the same with a witness port (needs at least one port; holds for any ε) -/
+theorem feasible_ge_optimum_port (ε : Rat) (n : Nat) (hn : 0 < n) (us : List Uop)
+    (hw : WFUops n us) (v : List Rat) (h : Feasible ε n us v) (opt : Rat)
+    (hopt : IsOptimum n us opt) : ∃ p < n, opt - ε ≤ v.getD p 0 := by
+  rw [(optimum_eq_lowerBound n us hw opt).mp hopt]
+  rcases lowerBound_attained us with h0 | ⟨S, hne, hS, hsub, heq⟩
+  · exact ⟨0, hn, by rw [h0, zero_sub]; exact h.nonneg 0 hn⟩
+  · have hSn : ∀ p ∈ S, p < n := by
+      intro p hp
+      obtain ⟨u, hu, hpu⟩ := (mem_usedPorts us p).mp (hsub p hp)
+      exact (hw u hu).2.2.2 p hpu
+    obtain ⟨p, hp, hle⟩ := C02.lowerBound_le_max ε n us v h S hS hSn hne
+    exact ⟨p, hSn p hp, by rw [heq]; exact hle⟩
+
+/-! ### non-vacuity: the worst kernel of the exhaustive family (three micro-ops on three ports,
+    lower bound 5/3), an optimal and a sub-optimal schedule of it -/
+
+/-- the kernel of `C02`'s non-vacuity example -/
+abbrev exUs : List Uop := [⟨1, [0, 1, 2], 1⟩, ⟨2, [1, 2], 1⟩, ⟨2, [0, 1], 1⟩]
+/-- an optimal schedule: every port carries 5/3 -/
+abbrev exOpt : List (List Rat) := [[0, 1, 0], [0, 1/3, 5/3], [5/3, 1/3, 0]]
+/-- the uniform schedule: port 1 carries 7/3 -/
+abbrev exUni : List (List Rat) := [[1/3, 1/3, 1/3], [0, 1, 1], [1, 1, 0]]
+
+example : WFUops 3 exUs := by decide +kernel
+example : lowerBound exUs = 5/3 := by decide +kernel
+example : Assignment 3 exUs exOpt ∧ Spec.colSums 3 exOpt = [5/3, 5/3, 5/3] ∧
+    maxLoad (Spec.colSums 3 exOpt) = 5/3 := by decide +kernel
+example : Assignment 3 exUs exUni ∧ Spec.colSums 3 exUni = [4/3, 7/3, 4/3] ∧
+    maxLoad (Spec.colSums 3 exUni) = 7/3 := by decide +kernel
+-- the clauses of `Assignment` bite: a row outside the admissible ports, an incomplete row
+example : ¬ Assignment 3 exUs [[0, 1, 0], [1/3, 0, 5/3], [5/3, 1/3, 0]] := by decide +kernel
+example : ¬ Assignment 3 exUs [[0, 1, 0], [0, 1/3, 4/3], [5/3, 1/3, 0]] := by decide +kernel
+-- 1: the theorem applies (and its conclusion is the decidable oracle's verdict)
+example : Feasible 0 3 exUs [5/3, 5/3, 5/3] := by
+  have h := assignment_feasible 3 exUs exOpt (by decide +kernel)
+  rwa [show Spec.colSums 3 exOpt = [5/3, 5/3, 5/3] from by decide +kernel] at h
+example : checkFeasible 0 3 exUs (Spec.colSums 3 exUni) = none := by decide +kernel
+-- 2: weak duality is strict for the uniform schedule, tight for the optimal one
+example : lowerBound exUs < maxLoad (Spec.colSums 3 exUni) := by decide +kernel
+example : lowerBound exUs ≤ maxLoad (Spec.colSums 3 exOpt) :=
+  assignment_ge_lowerBound 3 exUs (by decide +kernel) exOpt (by decide +kernel)
+-- 3/4: hypotheses satisfiable, conclusion non-trivial (5/3 > 0, strictly below the uniform 7/3)
+example : ∃ x, Assignment 3 exUs x ∧ maxLoad (Spec.colSums 3 x) ≤ 5/3 := by
+  have h := optimum_attained 3 exUs (by decide +kernel)
+  rwa [show lowerBound exUs = 5/3 from by decide +kernel] at h
+example : IsOptimum 3 exUs (5/3) :=
+  (optimum_eq_lowerBound 3 exUs (by decide +kernel) (5/3)).mpr (by decide +kernel)
+example : ¬ IsOptimum 3 exUs (7/3) := fun h =>
+  absurd ((optimum_eq_lowerBound 3 exUs (by decide +kernel) (7/3)).mp h) (by decide +kernel)
+-- 5: a vector feasible only with slack 1/100 (5/3 truncated to two places on every port): its
+-- busiest port undercuts the optimum 5/3, but by less than 1/100
+example : Feasible (1/100) 3 exUs [166/100, 166/100, 166/100] ∧
+    ¬ Feasible 0 3 exUs [166/100, 166/100, 166/100] ∧
+    maxLoad [166/100, 166/100, 166/100] < 5/3 :=
+  ⟨checkFeasible_sound _ (by decide +kernel) 3 _ _ (by decide +kernel),
+   fun h => absurd h.totalLo (by decide +kernel), by decide +kernel⟩
+example : (5/3 : Rat) - 1/100 ≤ maxLoad [166/100, 166/100, 166/100] :=
+  feasible_ge_optimum (1/100) (by decide +kernel) 3 exUs (by decide +kernel) _
+    (checkFeasible_sound _ (by decide +kernel) 3 _ _ (by decide +kernel)) (5/3)
+    ((optimum_eq_lowerBound 3 exUs (by decide +kernel) (5/3)).mpr (by decide +kernel))
+example : ∃ p < 3, (5/3 : Rat) - 1/100 ≤ [166/100, 166/100, 166/100].getD p 0 :=
+  feasible_ge_optimum_port (1/100) 3 (by decide) exUs (by decide +kernel) _
+    (checkFeasible_sound _ (by decide +kernel) 3 _ _ (by decide +kernel)) (5/3)
+    ((optimum_eq_lowerBound 3 exUs (by decide +kernel) (5/3)).mpr (by decide +kernel))
+
 end OsacaVerif.Props.C02Duality
